@@ -28,6 +28,7 @@
 #include <ftw.h>
 #include <limits.h>
 #include <semaphore.h>
+#include <signal.h>
 #include <sys/stat.h>
 #include <sys/statfs.h>
 #include <sys/uio.h>
@@ -80,7 +81,9 @@ static void* c_realloc(void* q, size_t n) {
   if (q != NULL && n == 0) __atomic_sub_fetch(&live, 1, __ATOMIC_SEQ_CST);
   return p;
 }
-static void c_free(void* p) { if (p) __atomic_sub_fetch(&live, 1, __ATOMIC_SEQ_CST); free(p); }
+/* C11_CLOBBER=1: an application allocator whose free() leaves junk in errno */
+static int clobber;
+static void c_free(void* p) { if (p) __atomic_sub_fetch(&live, 1, __ATOMIC_SEQ_CST); free(p); if (clobber) errno = 9999; }
 
 /* ---- output ---- */
 static char* obuf; static size_t olen, ocap;
@@ -129,10 +132,14 @@ static int cmpstr(const void* a, const void* b) { return strcmp(*(char* const*) 
 
 static unsigned dig_h; static long dig_n;
 static void digest_dir(const char* dir) {
-  DIR* d = opendir(dir); struct dirent* e; char* names[256]; int n = 0, i;
+  DIR* d = opendir(dir); struct dirent* e; char** names; int n = 0, cap = 256, i;
   if (!d) return;
-  while ((e = readdir(d)) && n < 256)
-    if (strcmp(e->d_name, ".") && strcmp(e->d_name, "..")) names[n++] = strdup(e->d_name);
+  names = malloc(sizeof(char*) * (size_t) cap);
+  while ((e = readdir(d)))
+    if (strcmp(e->d_name, ".") && strcmp(e->d_name, "..")) {
+      if (n == cap) { cap *= 2; names = realloc(names, sizeof(char*) * (size_t) cap); }
+      names[n++] = strdup(e->d_name);
+    }
   closedir(d);
   qsort(names, n, sizeof(names[0]), cmpstr);
   for (i = 0; i < n; i++) {
@@ -154,6 +161,7 @@ static void digest_dir(const char* dir) {
     } else if (S_ISDIR(st.st_mode)) digest_dir(p);
     free(names[i]);
   }
+  free(names);
 }
 
 /* ---- async plumbing ---- */
@@ -362,6 +370,13 @@ static int same_file(int a, int b) {
   return fstat(a, &x) == 0 && fstat(b, &y) == 0 && x.st_dev == y.st_dev && x.st_ino == y.st_ino;
 }
 
+static void on_burst(uv_fs_t* r) { (*(int*) r->data)++; }
+static void on_alarm(int sig) {
+  static const char msg[] = "\nhang: asynchronous requests never completed (uv_run did not return)\n";
+  (void) sig;
+  if (write(2, msg, sizeof msg - 1) < 0) {}
+  _exit(3);
+}
 static sem_t gate_sem;
 static void blk(uv_work_t* w) { (void) w; sem_wait(&gate_sem); }
 static void blk_done(uv_work_t* w, int s) { (void) w; (void) s; }
@@ -626,6 +641,77 @@ static void run_op(char** a, int na) {
       finish(&req); t(" cb=%d m=%ld,%ld,%ld,%ld", ncb, m1, m2, m3, m4);
       sem_destroy(&gate_sem);
     } else t("res=-");
+  } else if (!strcmp(op, "burst")) {
+    /* burst <kind> <n> <rounds>: n requests issued back to back before the loop runs
+     * (kind: mkdir | stat | open | mixed); every request has its own callback counter */
+    const char* kind = ARG(1); int n = atoi(ARG(2)), rounds = atoi(ARG(3)), r, i;
+    long* results; int* cbs; unsigned rh = 2166136261u; long okc = 0; int cmin = 1 << 30, cmax = -1; long viaring = 0;
+    if (n < 1) n = 1; if (n > 2000) n = 2000; if (rounds < 1) rounds = 1;
+    results = calloc((size_t) n * 2, sizeof(long)); cbs = calloc((size_t) n * 2, sizeof(int));
+    for (r = 0; r < rounds; r++) {
+      int phases = !strcmp(kind, "open") ? 2 : 1, ph;
+      int* fds = calloc((size_t) n, sizeof(int));
+      for (ph = 0; ph < phases; ph++) {
+        memset(cbs, 0, sizeof(int) * (size_t) n);
+        if (uvr && CB != NULL) {
+          uv_fs_t* reqs = calloc((size_t) n, sizeof(uv_fs_t)); int* rcs = calloc((size_t) n, sizeof(int));
+          for (i = 0; i < n; i++) {
+            char nm[64]; int k4 = !strcmp(kind, "mixed") ? i % 4 : -1; uint32_t f0 = route == R_RING ? ring_iou()->in_flight : 0;
+            reqs[i].data = &cbs[i];
+            snprintf(nm, sizeof nm, "bu_%d_%d", r, i);
+            if (!strcmp(kind, "mkdir") || k4 == 0) rcs[i] = uv_fs_mkdir(L, &reqs[i], nm, 0755, on_burst);
+            else if (!strcmp(kind, "stat") || k4 == 1) rcs[i] = uv_fs_stat(L, &reqs[i], "a.txt", on_burst);
+            else if (k4 == 2) { nm[1] = 's'; rcs[i] = uv_fs_symlink(L, &reqs[i], "a.txt", nm, 0, on_burst); }
+            else if (k4 == 3) rcs[i] = uv_fs_lstat(L, &reqs[i], "ln", on_burst);
+            else if (ph == 0) rcs[i] = uv_fs_open(L, &reqs[i], "a.txt", O_RDONLY, 0, on_burst);
+            else rcs[i] = uv_fs_close(L, &reqs[i], fds[i], on_burst);
+            if (route == R_RING && ring_iou()->ringfd >= 0 && ring_iou()->in_flight != f0) viaring++;
+          }
+          alarm(20);
+          uv_run(L, UV_RUN_DEFAULT);
+          alarm(0);
+          for (i = 0; i < n; i++) {
+            long v = rcs[i] == 0 ? (long) reqs[i].result : rcs[i];
+            if ((!strcmp(kind, "stat") || (!strcmp(kind, "mixed") && (i % 4 == 1 || i % 4 == 3))) && v == 0) v = (long) reqs[i].statbuf.st_size + 1000;
+            if (!strcmp(kind, "open") && ph == 0) { fds[i] = (int) v; v = v >= 0 ? 0 : v; }
+            results[i] = v;
+            if (cbs[i] < cmin) cmin = cbs[i]; if (cbs[i] > cmax) cmax = cbs[i];
+            uv_fs_req_cleanup(&reqs[i]);
+          }
+          free(reqs); free(rcs);
+        } else {
+          for (i = 0; i < n; i++) {
+            char nm[64]; int k4 = !strcmp(kind, "mixed") ? i % 4 : -1; long v; struct stat st; uv_fs_t q;
+            snprintf(nm, sizeof nm, "bu_%d_%d", r, i);
+            if (uvr) {
+              if (!strcmp(kind, "mkdir") || k4 == 0) v = uv_fs_mkdir(NULL, &q, nm, 0755, NULL);
+              else if (!strcmp(kind, "stat") || k4 == 1) { v = uv_fs_stat(NULL, &q, "a.txt", NULL); if (v == 0) v = (long) q.statbuf.st_size + 1000; }
+              else if (k4 == 2) { nm[1] = 's'; v = uv_fs_symlink(NULL, &q, "a.txt", nm, 0, NULL); }
+              else if (k4 == 3) { v = uv_fs_lstat(NULL, &q, "ln", NULL); if (v == 0) v = (long) q.statbuf.st_size + 1000; }
+              else if (ph == 0) { v = uv_fs_open(NULL, &q, "a.txt", O_RDONLY, 0, NULL); fds[i] = (int) v; v = v >= 0 ? 0 : v; }
+              else v = uv_fs_close(NULL, &q, fds[i], NULL);
+              uv_fs_req_cleanup(&q);
+            } else {
+              if (!strcmp(kind, "mkdir") || k4 == 0) v = NEG(mkdir(nm, 0755));
+              else if (!strcmp(kind, "stat") || k4 == 1) { v = NEG(stat("a.txt", &st)); if (v == 0) v = (long) st.st_size + 1000; }
+              else if (k4 == 2) { nm[1] = 's'; v = NEG(symlink("a.txt", nm)); }
+              else if (k4 == 3) { v = NEG(lstat("ln", &st)); if (v == 0) v = (long) st.st_size + 1000; }
+              else if (ph == 0) { fds[i] = open("a.txt", O_RDONLY | O_CLOEXEC); v = fds[i] >= 0 ? 0 : -(long) errno; }
+              else v = NEG(close(fds[i]));
+            }
+            results[i] = v;
+          }
+        }
+        for (i = 0; i < n; i++) { rh = fnv((unsigned char*) &results[i], sizeof(long), rh); if (results[i] >= 0) okc++; }
+      }
+      free(fds);
+    }
+    t("res=%ld out=%u", okc, rh);
+    if (uvr && CB != NULL) {
+      if (cmin == 1 && cmax == 1) t(" cb=1"); else t(" cb=%d..%d", cmin, cmax);
+      t(" via=b"); if (route == R_RING) t(" ring=%ld", viaring);
+    }
+    free(results); free(cbs);
   } else if (!strcmp(op, "statx95")) {
     /* fault injection on the ring route: the completion of the statx SQE is rewritten to
      * -EOPNOTSUPP in the completion ring before libuv looks at it (what a file system
@@ -707,8 +793,10 @@ int main(int argc, char** argv) {
   char* line = NULL; size_t cap = 0; ssize_t k; long caseno = 0; uv_fs_t req; const char* e;
   if (argc < 2) { fprintf(stderr, "usage: c11_routes <scratch dir>\n"); return 2; }
   setenv("UV_USE_IO_URING", "1", 1);
+  e = getenv("C11_CLOBBER"); clobber = e && atoi(e) > 0;
   e = getenv("UV_THREADPOOL_SIZE"); if (e && atoi(e) > 0) nthreads = atoi(e);
   if (nthreads > 128) nthreads = 128;
+  signal(SIGALRM, on_alarm);
   uv_replace_allocator(c_malloc, c_realloc, c_calloc, c_free);
   uv_loop_init(&pool_loop);
   uv_loop_init(&ring_loop);
